@@ -22,7 +22,7 @@ func init() {
 			"a short count with a nil error violates io.Writer's own contract and is not injected",
 			"after a transient fault the caller continues; the prefix clause is evaluated at the return of the failing call",
 		},
-		batches: map[string]int{"quick": 64, "thorough": 480},
+		batches: map[string]int{"quick": 64, "thorough": 96},
 		checks:  map[string]int{"quick": 20, "thorough": 40},
 	}})
 }
